@@ -634,8 +634,8 @@ func c24AllSpecs() map[string][]c24Params {
 		"quick": {
 			{Name: "typha-b1-m1-graph", MaxBatch: 1, MaxMsg: 1, Depth: 7, Rejoins: 1},
 			{Name: "typha-b2-m1-graph", MaxBatch: 2, MaxMsg: 1, Depth: 6, Rejoins: 1},
-			{Name: "typha-b2-m2-graph", MaxBatch: 2, MaxMsg: 2, Depth: 6, Rejoins: 1},
-			{Name: "typha-b3-m2-rich-graph", MaxBatch: 3, MaxMsg: 2, Depth: 5, Rejoins: 1, Rich: true},
+			{Name: "typha-b2-m2-graph", MaxBatch: 2, MaxMsg: 2, Depth: 5, Rejoins: 1},
+			{Name: "typha-b3-m2-rich-graph", MaxBatch: 3, MaxMsg: 2, Depth: 4, Rejoins: 1, Rich: true},
 			{Name: "typha-b2-m1-tree", MaxBatch: 2, MaxMsg: 1, Depth: 4, Rejoins: 1, Tree: true},
 		},
 		"thorough": {
